@@ -458,51 +458,60 @@ impl Run {
                     break;
                 }
                 wd_info.lock().unwrap().0 = parent.clone();
-                // expand
-                let succ: Vec<(u32, u32, Result<(S, Vec<u8>), Bad>)> = frontier
-                    .par_iter()
-                    .flat_map_iter(|&si| {
-                        let s = &states[si as usize];
-                        let mut out = Vec::with_capacity(nops);
-                        for op in 0..nops {
-                            let slot = self.slot_enter(si as u64, op as u64);
-                            let r = step(s, op);
-                            self.slot_leave(slot);
-                            match r {
-                                None => {}
-                                Some(Ok(ns)) => {
-                                    let k = key(&ns);
-                                    out.push((si, op as u32, Ok((ns, k))));
-                                }
-                                Some(Err(b)) => out.push((si, op as u32, Err(b))),
-                            }
-                        }
-                        out.into_iter()
-                    })
-                    .collect();
-                let ntrans = succ.len() as u64;
-                transitions += ntrans;
+                // expand, chunk by chunk so that the successors of the whole frontier are never materialised at once
+                let mut ntrans: u64 = 0;
                 let mut next: Vec<u32> = vec![];
-                for (si, op, r) in succ {
-                    match r {
-                        Ok((ns, k)) => {
-                            if !seen.contains_key(&k) {
-                                let id = states.len() as u32;
-                                seen.insert(k, id);
-                                states.push(ns);
-                                parent.push((si, op));
-                                depth_of.push(depth as u16);
-                                next.push(id);
+                for chunk in frontier.chunks(8192) {
+                    let succ: Vec<(u32, u32, Result<(S, Vec<u8>), Bad>)> = chunk
+                        .par_iter()
+                        .flat_map_iter(|&si| {
+                            let s = &states[si as usize];
+                            let mut out = Vec::with_capacity(nops);
+                            for op in 0..nops {
+                                let slot = self.slot_enter(si as u64, op as u64);
+                                let r = step(s, op);
+                                self.slot_leave(slot);
+                                match r {
+                                    None => {}
+                                    Some(Ok(ns)) => {
+                                        let k = key(&ns);
+                                        out.push((si, op as u32, Ok((ns, k))));
+                                    }
+                                    Some(Err(b)) => out.push((si, op as u32, Err(b))),
+                                }
                             }
-                        }
-                        Err(b) => {
-                            let (root, mut p) = path_of(&parent, si);
-                            p.push(ops[op as usize].clone());
-                            // order failures by (depth, discovery index) so the shortest comes first
-                            let idx = ((depth as u64) << 40) | si as u64;
-                            self.record_fail(name, idx, b, || mk_case(root, &p));
+                            out.into_iter()
+                        })
+                        .collect();
+                    ntrans += succ.len() as u64;
+                    for (si, op, r) in succ {
+                        match r {
+                            Ok((ns, k)) => {
+                                if !seen.contains_key(&k) {
+                                    let id = states.len() as u32;
+                                    seen.insert(k, id);
+                                    states.push(ns);
+                                    parent.push((si, op));
+                                    depth_of.push(depth as u16);
+                                    next.push(id);
+                                }
+                            }
+                            Err(b) => {
+                                let (root, mut p) = path_of(&parent, si);
+                                p.push(ops[op as usize].clone());
+                                // order failures by (depth, discovery index) so the shortest comes first
+                                let idx = ((depth as u64) << 40) | si as u64;
+                                self.record_fail(name, idx, b, || mk_case(root, &p));
+                            }
                         }
                     }
+                    if self.over_cap() {
+                        break;
+                    }
+                }
+                transitions += ntrans;
+                if self.capped.load(Relaxed) {
+                    break;
                 }
                 // invariants on the new states
                 wd_info.lock().unwrap().0 = parent.clone();
